@@ -1398,3 +1398,94 @@ Lemma reparse_refuted :
 Proof.
   exists ff_header. eexists. split; [vm_compute; reflexivity|]. split; vm_compute; reflexivity.
 Qed.
+
+(** ** header size, and what New must accept *)
+Lemma escape_len v : lenN (value_escape v) = escaped_len v.
+Proof.
+  induction v as [|c v IH]; [reflexivity|]. cbn [value_escape escaped_len fold_right].
+  change (fold_right _ 0 v) with (escaped_len v). rewrite <- IH, <- value_char_octet.
+  unfold should_escape, PERCENT. destruct (c =? 37), (value_char c); cbn [orb negb andb lenN]; lia.
+Qed.
+
+Lemma sep_join_len sep (l : list bytes) :
+  l <> [] -> lenN (sep :: join sep l) = fold_right (fun x n => 1 + lenN x + n) 0 l.
+Proof.
+  induction l as [|x l IH]; [congruence|]. intros _. destruct l as [|y l].
+  - cbn [join fold_right lenN]. lia.
+  - change (join sep (x :: y :: l)) with (x ++ sep :: join sep (y :: l)).
+    cbn [lenN fold_right]. rewrite lenN_app, IH by discriminate. cbn [fold_right]. lia.
+Qed.
+
+Lemma join_len sep (l : list bytes) :
+  lenN (join sep l) = fold_right (fun x n => lenN x + n) 0 l + (lenN l - 1).
+Proof.
+  destruct l as [|x l]; [reflexivity|].
+  assert (H := sep_join_len sep (x :: l)). cbn [lenN] in *. specialize (H ltac:(discriminate)).
+  assert (E : forall l0 : list bytes, fold_right (fun x n => 1 + lenN x + n) 0 l0
+                 = fold_right (fun x n => lenN x + n) 0 l0 + lenN l0).
+  { induction l0 as [|y l0 IH0]; cbn [fold_right lenN]; [reflexivity|]. rewrite IH0. lia. }
+  rewrite E in H. cbn [lenN fold_right] in *. lia.
+Qed.
+
+Lemma prop_string_len p : good_prop p = true -> lenN (prop_string p) = prop_len p.
+Proof.
+  destruct p as [k ov]. unfold good_prop, prop_string, prop_len. cbn [fst snd]. intro H.
+  apply andb_true_iff in H as [Hk _]. rewrite Hk. cbn [negb]. rewrite <- lenN_blen.
+  destruct ov as [v|]; [|lia]. rewrite lenN_app. cbn [lenN]. rewrite escape_len. lia.
+Qed.
+
+Lemma props_suffix_len ps :
+  forallb good_prop ps = true ->
+  lenN (if is_nil ps then [] else SEMI :: props_string ps) = fold_right (fun p n => 1 + prop_len p + n) 0 ps.
+Proof.
+  intro H. destruct ps as [|p ps']; [reflexivity|]. cbn [is_nil]. set (l := p :: ps') in *.
+  unfold props_string.
+  assert (Hs : forallb semi_good_prop l = true).
+  { apply (forallb_impl good_prop); [|exact H]. intros x Hx. unfold semi_good_prop. now rewrite Hx. }
+  rewrite (prop_strings_filter _ Hs).
+  assert (E : filter good_prop l = l).
+  { clear -H. induction l as [|x l IH]; [reflexivity|]. cbn in *. apply andb_true_iff in H as [H1 H2].
+    now rewrite H1, IH. }
+  rewrite E, sep_join_len by discriminate.
+  clear -H. induction l as [|x l IH]; [reflexivity|]. cbn [map fold_right forallb] in *.
+  apply andb_true_iff in H as [H1 H2]. now rewrite IH, prop_string_len.
+Qed.
+
+Lemma member_string_len m : good_member m = true -> lenN (member_string m) = member_len m.
+Proof.
+  destruct m as [[k v] ps]. unfold good_member, member_len, mkey, mval, mprops, key_of, value_of, props_of.
+  cbn [fst snd]. intro H. apply andb_true_iff in H as [H Hp]. apply andb_true_iff in H as [Hk _].
+  rewrite member_string_shape by exact Hk. rewrite !lenN_app. cbn [lenN].
+  rewrite props_suffix_len by exact Hp. rewrite escape_len, <- lenN_blen. lia.
+Qed.
+
+Lemma baggage_string_len b : forallb good_member b = true -> lenN (baggage_string b) = header_len b.
+Proof.
+  intro H. unfold baggage_string, header_len.
+  rewrite member_strings_all by (apply (forallb_impl good_member); [apply good_semi_good|exact H]).
+  rewrite join_len, lenN_map, <- lenN_blen. f_equal.
+  induction b as [|m b IH]; [reflexivity|]. cbn [map fold_right forallb] in *.
+  apply andb_true_iff in H as [H1 H2]. now rewrite IH, member_string_len.
+Qed.
+
+Lemma new_fold_some ms : forall acc, new_fold (map Some ms) acc = Some (fold_left bag_set ms acc).
+Proof. induction ms as [|m r IH]; intro acc; [reflexivity|]. cbn. apply IH. Qed.
+
+(** New accepts every list of header-expressible members whose map has at most
+    180 entries and needs at most 8192 bytes. *)
+Lemma new_accepts ms :
+  let b := fold_left bag_set ms [] in
+  forallb member_accepted ms = true -> blen b <= LIMIT_MEMBERS -> header_len b <= LIMIT_TOTAL_BYTES ->
+  new (map Some ms) = Some b.
+Proof.
+  intros b Ha Hn Hl.
+  assert (Hg : forallb good_member b = true).
+  { rewrite (forallb_ext_eq _ _ b good_member_accepted). now apply forallb_fold. }
+  unfold new. destruct ms as [|m r]; [reflexivity|]. cbn [map].
+  change (Some m :: map Some r) with (map Some (m :: r)). rewrite new_fold_some. fold b.
+  rewrite <- lenN_blen in Hn. rewrite <- (baggage_string_len b Hg) in Hl.
+  assert (E1 : (MAX_MEMBERS <? lenN b) = false) by (unfold MAX_MEMBERS, LIMIT_MEMBERS in *; lia).
+  assert (E2 : (MAX_BYTES_PER_BAGGAGE <? lenN (baggage_string b)) = false)
+    by (unfold MAX_BYTES_PER_BAGGAGE, LIMIT_TOTAL_BYTES in *; lia).
+  now rewrite E1, E2.
+Qed.
